@@ -448,6 +448,19 @@ int main(void)
 			counting = 0;
 			show(r, dst ? find_id(dst) : -1);
 		}
+		else if (NW == 4 && !strcmp(W[0], "ptrset"))
+		{
+			struct json_object *o = node(W[1], &ok);
+			struct json_object *v = val(W[3], &ok);
+			if (!ok) { puts("harness: bad operand"); continue; }
+			char *path = unhexz(W[2], NULL);
+			struct json_object *root = o; /* the caller's variable; "" replaces it by v */
+			counting = 1;
+			int r = json_pointer_set(&root, path, v);
+			counting = 0;
+			free(path);
+			show(r, -1);
+		}
 		else
 			puts("bad-op");
 		fflush(stdout);
